@@ -306,6 +306,20 @@ func (e *c17Env) monitor() {
 			bad("disabled", "pulling was not enabled (no start_relay_pull since the last stop/kick, no static pull)")
 			continue
 		}
+		if cur != nil && !cur.Ok && !e.static {
+			// the governing start_relay_pull was answered with an error, yet lal stored the request and
+			// now acts on it: the response did not report what actually happened
+			reason := "other"
+			switch {
+			case strings.Contains(cur.Desp, "in stream already exist"):
+				reason = "dup-in-stream"
+			case strings.Contains(cur.Desp, "auto stop"):
+				reason = "auto-stop"
+			case strings.Contains(cur.Desp, "retry limited"):
+				reason = "retry-limited"
+			}
+			c.Violate("pull-api/refused-start-armed/"+reason, fmt.Sprintf("origin connection %d at %.3f s is made under a start_relay_pull call that lal had answered with an error (%q): the call reported failure but armed the pull\n%s", n, t.Sub(e.t0).Seconds(), cur.Desp, e.trace()), nil)
+		}
 		if covered(pubs, t.Add(-c17Tick-c17Slack), t) {
 			bad("input-present", "a publisher was attached during the whole preceding tick")
 			continue
@@ -662,6 +676,47 @@ func c17PullOvertaken(c *fw.Ctx, i int, static bool) {
 	if !static {
 		e.apiStop()
 	}
+	e.monitor()
+}
+
+// c17PullRefusedArms: start_relay_pull while a publisher is the stream's input is answered with an
+// error. If a pull is nevertheless attempted once the publisher has left, the answer did not
+// report what happened (judged by the monitor; a known finding, see known_findings.jsonl).
+func c17PullRefusedArms(c *fw.Ctx, i int) {
+	e := c17Start(c, i, false, nil)
+	if e == nil {
+		return
+	}
+	defer e.stop()
+	e.desc = "start_relay_pull refused because a publisher is present; the publisher then leaves"
+	c.Describe("%s", e.desc)
+	c.Cell("pull/refused-start-then-free")
+	x := e.sub()
+	defer e.unsub(x)
+	from := e.s.Notify.Len()
+	p, err := ref.StartRtmpPublisher(e.s.RtmpAddr(), "live", e.name, 3*time.Second)
+	if err != nil {
+		c.Inconclusive("publisher: %v", err)
+		return
+	}
+	defer p.Close()
+	paddr := srv.Key(p.RC.Conn)
+	if _, ok := e.s.Notify.WaitSessionFrom(3*time.Second, from, "pub_start", paddr); !ok {
+		c.Inconclusive("publisher not accepted")
+		return
+	}
+	a := e.apiStart(-1, -1)
+	c.Eval(1)
+	if a.Ok {
+		c.Violate("pull-api/start-accepted-with-input", "start_relay_pull answered success although a publisher is the stream's input\n"+e.trace(), nil)
+		return
+	}
+	time.Sleep(300 * time.Millisecond)
+	p.Close()
+	e.s.Notify.WaitSessionFrom(3*time.Second, from, "pub_stop", paddr)
+	e.logf("publisher left")
+	e.waitAttempts(1, 4*c17Tick+c17Slack)
+	e.apiStop()
 	e.monitor()
 }
 
@@ -1076,6 +1131,7 @@ func init() {
 		h := h
 		cat = append(cat, sc{"inflight-" + h, func(c *fw.Ctx, i int) { c17PullStopInFlight(c, i, h) }})
 	}
+	cat = append(cat, sc{"refused-arms", c17PullRefusedArms})
 	cat = append(cat, sc{"overtaken", func(c *fw.Ctx, i int) { c17PullOvertaken(c, i, false) }}, sc{"overtaken-static", func(c *fw.Ctx, i int) { c17PullOvertaken(c, i, true) }})
 	cat = append(cat, sc{"kick", func(c *fw.Ctx, i int) { c17PullKick(c, i, false) }}, sc{"kick-static", func(c *fw.Ctx, i int) { c17PullKick(c, i, true) }})
 	for _, p := range []struct {
@@ -1098,7 +1154,7 @@ func init() {
 		Batches:     func(string) int { return 16 },
 		CaseTimeout: func(string) time.Duration { return 4 * time.Minute },
 		Rule: "whole-server runs with a scriptable RTMP origin and scriptable push targets in the harness that log every accepted connection. Monitor (every run): each origin connection must be permitted — pulling enabled (static, or a start_relay_pull since the last stop/kick), no publisher or pull attached during the whole preceding tick, no earlier connection still unanswered, attempt count ≤ pull_retry_num+1 since the governing start/stop, and for auto-stop ≥ 0 a consumer present within window+1 tick (for a window > 0 a start call within the window counts as start-up grace). Scripted: retry budgets 0/1/3/−1 against a refusing origin (exact attempt counts; after the budget is spent stop + start must be accepted and get a fresh budget; for −1 attach, media, stop reply = attached id, pull_stop ≤ 3 s); auto-stop −1/0/2000 ms and static pull (attach ≤ 4 s after a consumer joins, stop within [window−1 tick, window+2 ticks+1 s] after it leaves, never for −1); stop / second start / publisher while the attempt is held in flight by the origin; an attempt overtaken by a publisher that then leaves again (API with unlimited budget, and static): next attempt ≤ 4 ticks+0.3 s, attaches; kick of an attached API and static pull. Seeded programs over {consumer join/leave, start(retry, auto-stop), stop, kick, publisher arrive/leave} with origin outcomes refuse / close after connect / die after n messages / serve, judged by the monitor. Push: RTMP and RTSP publishers × 1–3 targets × target refusing its first 0–3 connections × URL parameters of 0/10/300/5000/40000 bytes: one publish session per target within (refusals+2) ticks+2 s, never two at once, publish name byte-equal incl. parameters, media arrives, sessions closed ≤ 3 s after the publisher left and no connection afterwards; a target that accepts and never answers while the publisher leaves and returns three times: never two connections at once, none left 13 s after the last publisher. cell = scenario × parameters.",
-		Assumptions: []string{"a start_relay_pull that lal answers with an error still counts as enabling (lal stores the request and starts later); the property text does not say otherwise", "time bands are one tick (1 s) + 0.3 s wide on each side; nothing is judged inside them", "RTSP pull origins are not driven (no RTSP stub server)"},
+		Assumptions: []string{"a start_relay_pull that lal answers with an error still enables pulling as far as the attempt rules are concerned (lal stores the request and starts later); that the answer then misreports what happened is reported separately (`pull-api/refused-start-armed/*`, a known finding)", "time bands are one tick (1 s) + 0.3 s wide on each side; nothing is judged inside them", "RTSP pull origins are not driven (no RTSP stub server)"},
 		MinCells: 8,
 		Run: func(c *fw.Ctx, i int) {
 			n := nCat + 11
